@@ -39,6 +39,7 @@ type JobConfig struct {
 	Pkg        string   `json:"pkg"`
 	Entry      string   `json:"entry"`
 	Params     []int    `json:"params"`
+	SParams    []string `json:"sparams,omitempty"`
 	Solver     string   `json:"solver"`
 	TimeoutMs  int      `json:"timeout_ms"`
 	Unwind     int      `json:"unwind"`
@@ -52,6 +53,7 @@ type JobConfig struct {
 	WitnessFor []string `json:"witness_for,omitempty"`
 	WallMs     int      `json:"wall_ms,omitempty"`
 	UnwindAssume []string `json:"unwind_assume,omitempty"` // loops of these functions: reaching the bound ends the path (assumption), e.g. probabilistic rejection sampling
+	BytesLens  []int    `json:"bytes_lens,omitempty"` // big.Int.Bytes(): explore only these minimal lengths of a symbolic value
 	BytesFull  bool     `json:"bytes_full,omitempty"` // assume DH results have no leading zero octet (C09 decides those cases)
 	MapOrders  bool     `json:"map_orders,omitempty"` // fork over map iteration orders (C14 / C20 determinism)
 }
